@@ -190,3 +190,43 @@ func VerifC06Steady() {
 	}
 	verifCover("end")
 }
+
+// VerifC06SpoolBlackhole: spooling on. Lines are spooled while the endpoint is absent; then the endpoint comes
+// back as a black hole (accepts the connection, never reads), so the unspooled backlog fills the connection's
+// queue and buffers. Handing further lines to the destination must still return (a relay stuck pushing the
+// backlog into the full queue shows as a deadlock of the hand-off), also after the black hole finally closes the
+// connection; and with spooling on no line is ever counted as conn_down_no_spool.
+func VerifC06SpoolBlackhole() {
+	d := verifNewDest(true, 1, 4)
+	d.Run()
+	verifSettle()
+	nb := 3 + verifChoice("backlog", 3)
+	for i := 0; i < nb; i++ {
+		d.In <- []byte{'s', byte('0' + i)} // spooled
+		verifSettle()
+	}
+	verifEndpointStallNew(true)
+	verifEndpointUp(true)
+	for i := 0; i < 3; i++ {
+		verifTick(verifReconnTicker()) // reconnects; unspooling into the black hole starts
+		verifSettle()
+	}
+	n := 2 + verifChoice("nlines", 2)
+	for i := 0; i < n; i++ {
+		d.In <- []byte{'l', byte('0' + i)} // must complete
+		verifSettle()
+	}
+	if verifBool("black-hole-closes") {
+		verifEndpointUp(false)
+		for k := 0; k < verifNumConns(); k++ {
+			verifEndpointClose(k)
+		}
+		verifSettle()
+		for i := 0; i < 2; i++ {
+			d.In <- []byte{'m', byte('0' + i)} // must complete
+			verifSettle()
+		}
+	}
+	verifAssert(d.numDropNoConnNoSpool.Count() == 0, "spooling-never-counts-conn-down-drops")
+	verifCover("end")
+}
